@@ -310,4 +310,204 @@ theorem no_delete_outside_target (old new : Option Index) (p : Key × Entry)
     (entryOf new p.1).isSome = true :=
   (compare_inv false old new).inTarget rfl p h
 
+
+/-! ### completeness of `compare`: whatever has to change is scheduled -/
+
+theorem addCreate_mono (a : Actions) (p : Key × Entry) :
+    (∀ q ∈ a.filesDelete, q ∈ (addCreate a p).filesDelete) ∧ (∀ q ∈ a.dirsDelete, q ∈ (addCreate a p).dirsDelete) ∧
+    (∀ q ∈ a.filesCreate, q ∈ (addCreate a p).filesCreate) ∧ (∀ q ∈ a.dirsCreate, q ∈ (addCreate a p).dirsCreate) ∧
+    (∀ q ∈ a.filesChmod, q ∈ (addCreate a p).filesChmod) := by
+  unfold addCreate
+  split
+  · exact ⟨fun _ h => h, fun _ h => h, fun _ h => h, fun _ h => List.mem_append_left _ h, fun _ h => h⟩
+  · refine ⟨fun _ h => h, fun _ h => h, fun _ h => List.mem_append_left _ h, fun _ h => h, ?_⟩
+    intro q h
+    simp only
+    split
+    · exact List.mem_append_left _ h
+    · exact h
+
+theorem addDelete_mono (a : Actions) (p : Key × Entry) :
+    (∀ q ∈ a.filesDelete, q ∈ (addDelete a p).filesDelete) ∧ (∀ q ∈ a.dirsDelete, q ∈ (addDelete a p).dirsDelete) ∧
+    (∀ q ∈ a.filesCreate, q ∈ (addDelete a p).filesCreate) ∧ (∀ q ∈ a.dirsCreate, q ∈ (addDelete a p).dirsCreate) ∧
+    (∀ q ∈ a.filesChmod, q ∈ (addDelete a p).filesChmod) := by
+  unfold addDelete
+  split
+  · exact ⟨fun _ h => h, fun _ h => List.mem_append_left _ h, fun _ h => h, fun _ h => h, fun _ h => h⟩
+  · exact ⟨fun _ h => List.mem_append_left _ h, fun _ h => h, fun _ h => h, fun _ h => h, fun _ h => h⟩
+
+/-- the action lists only grow -/
+def ActLe (a b : Actions) : Prop :=
+  (∀ q ∈ a.filesDelete, q ∈ b.filesDelete) ∧ (∀ q ∈ a.dirsDelete, q ∈ b.dirsDelete) ∧
+  (∀ q ∈ a.filesCreate, q ∈ b.filesCreate) ∧ (∀ q ∈ a.dirsCreate, q ∈ b.dirsCreate) ∧
+  (∀ q ∈ a.filesChmod, q ∈ b.filesChmod)
+
+theorem ActLe.refl (a : Actions) : ActLe a a := ⟨fun _ h => h, fun _ h => h, fun _ h => h, fun _ h => h, fun _ h => h⟩
+theorem ActLe.trans {a b c : Actions} (h1 : ActLe a b) (h2 : ActLe b c) : ActLe a c :=
+  ⟨fun q h => h2.1 q (h1.1 q h), fun q h => h2.2.1 q (h1.2.1 q h), fun q h => h2.2.2.1 q (h1.2.2.1 q h),
+   fun q h => h2.2.2.2.1 q (h1.2.2.2.1 q h), fun q h => h2.2.2.2.2 q (h1.2.2.2.2 q h)⟩
+
+theorem stepChange_mono (delete : Bool) (new : Option Index) (a : Actions) (c : Change) :
+    ActLe a (stepChange delete new a c) := by
+  unfold stepChange
+  cases ht : c.typ <;> cases ho : c.old <;> cases hn : c.new <;> simp only [] <;>
+    first
+    | exact ActLe.refl a
+    | exact addCreate_mono a _
+    | (split
+       · exact ActLe.refl a
+       · split
+         · exact ActLe.refl a
+         · exact addDelete_mono a _)
+    | (split
+       · split
+         · exact ActLe.refl a
+         · exact ActLe.trans (addDelete_mono a _) (addCreate_mono _ _)
+       · split
+         · exact ⟨fun _ h => h, fun _ h => h, fun _ h => h, fun _ h => h, fun _ h => List.mem_append_left _ h⟩
+         · exact ActLe.refl a)
+
+theorem foldl_stepChange_mono (delete : Bool) (new : Option Index) : ∀ (cs : List Change) (a : Actions),
+    ActLe a (cs.foldl (stepChange delete new) a) := by
+  intro cs
+  induction cs with
+  | nil => intro a; exact ActLe.refl a
+  | cons c r ih => intro a; exact ActLe.trans (stepChange_mono delete new a c) (ih _)
+
+/-- what one change contributes, whatever was scheduled before, is in the final lists -/
+theorem foldl_stepChange_mem (delete : Bool) (new : Option Index) (sel : Actions → List (Key × Entry))
+    (hsel : ∀ a b, ActLe a b → ∀ q ∈ sel a, q ∈ sel b) (p : Key × Entry) (c : Change)
+    (hc : ∀ a, p ∈ sel (stepChange delete new a c)) : ∀ (cs : List Change) (a : Actions), c ∈ cs →
+    p ∈ sel (cs.foldl (stepChange delete new) a) := by
+  intro cs
+  induction cs with
+  | nil => intro a h; simp at h
+  | cons x r ih =>
+    intro a h
+    simp only [List.foldl_cons]
+    rcases List.mem_cons.mp h with rfl | h
+    · exact hsel _ _ (foldl_stepChange_mono delete new r _) p (hc a)
+    · exact ih _ h
+
+theorem maxDepth_ge (idx : Index) (k : Key) (e : Entry) (h : idx.lookup k = some e) : k.length ≤ maxDepth (some idx) := by
+  have hm := AList.mem_of_lookup idx k e h
+  unfold maxDepth
+  simp only
+  have : ∀ (l : Index) (m : Nat), (∀ x ∈ l, x.1.length ≤ l.foldl (fun m e => max m e.1.length) m) ∧
+      m ≤ l.foldl (fun m e => max m e.1.length) m := by
+    intro l
+    induction l with
+    | nil => intro m; simp
+    | cons a r ih =>
+      intro m
+      simp only [List.foldl_cons]
+      obtain ⟨h1, h2⟩ := ih (max m a.1.length)
+      refine ⟨?_, by omega⟩
+      intro x hx
+      rcases List.mem_cons.mp hx with rfl | hx
+      · omega
+      · exact h1 x hx
+  exact (this idx 0).1 (k, e) hm
+
+theorem hasBelow_of_entryOf (idx : Option Index) (k : Key) (e : Entry) (h : entryOf idx k = some e) : HasBelow idx k := by
+  cases idx with
+  | none => simp [entryOf, optInfo] at h
+  | some i =>
+    simp only [HasBelow]
+    exact (entryOf_some i k).mp (by simp [h])
+
+theorem fuel_enough (old new : Option Index) (k : Key) (h : HasBelow old k ∨ HasBelow new k) :
+    k.length < max (maxDepth old) (maxDepth new) + 2 := by
+  rcases h with h | h
+  · cases old with
+    | none => simp [HasBelow] at h
+    | some i =>
+      simp only [HasBelow] at h
+      cases hl : i.lookup k with
+      | none => simp [hl] at h
+      | some e => have := maxDepth_ge i k e hl; omega
+  · cases new with
+    | none => simp [HasBelow] at h
+    | some i =>
+      simp only [HasBelow] at h
+      cases hl : i.lookup k with
+      | none => simp [hl] at h
+      | some e => have := maxDepth_ge i k e hl; omega
+
+/-- the change the diff reports for key `k` is one of the changes `compare` folds over -/
+theorem change_in_diff (old new : Option Index) (hwo : WFOpt old) (hwn : WFOpt new) (k : Key)
+    (hb : HasBelow old k ∨ HasBelow new k) (c : Change) (hc : c ∈ hereOf { cmp := .dirExec } old new k) :
+    c ∈ IndexDiff.diff { cmp := .dirExec } old new := by
+  unfold IndexDiff.diff
+  simp only [Bool.false_and, Bool.false_eq_true, if_false]
+  have := diffAt_complete { cmp := .dirExec } rfl (Or.inl rfl) old new hwo hwn k [] _ (fuel_enough old new k hb)
+    (by simpa using hb) c (by simpa using hc)
+  exact this
+
+/-- **everything the target needs is scheduled for creation**: a target file whose key is new, or whose
+    content or kind differs from what is there, is in `files_create` — for all well-formed indexes -/
+theorem compare_schedules_create (delete : Bool) (old new : Option Index) (hwo : WFOpt old) (hwn : WFOpt new)
+    (k : Key) (n : Entry) (hn : entryOf new k = some n) (hfile : isDirE n = false)
+    (hneed : diffEntry { cmp := .dirExec } (entryOf old k) (some n) = .add ∨
+      (diffEntry { cmp := .dirExec } (entryOf old k) (some n) = .modify ∧
+        ∃ o, entryOf old k = some o ∧ (o.hashInfo ≠ n.hashInfo ∨ isDirE o ≠ isDirE n))) :
+    (k, n) ∈ (compare delete old new).filesCreate := by
+  unfold compare
+  have hb : HasBelow old k ∨ HasBelow new k := Or.inr (hasBelow_of_entryOf new k n hn)
+  let c : Change := { typ := diffEntry { cmp := .dirExec } (entryOf old k) (entryOf new k),
+                      old := (entryOf old k).map (k, ·), new := (entryOf new k).map (k, ·) }
+  have hc : c ∈ hereOf { cmp := .dirExec } old new k := by
+    unfold hereOf
+    simp only [hn, Option.isNone_some, Bool.and_false, Bool.false_eq_true, if_false]
+    have : diffEntry { cmp := .dirExec } (entryOf old k) (some n) ≠ .unchanged := by
+      rcases hneed with h | ⟨h, _⟩ <;> rw [h] <;> simp
+    simp [this, c, hn]
+  apply foldl_stepChange_mem delete new (·.filesCreate) (fun a b h q hq => h.2.2.1 q hq) (k, n) c ?_ _ _
+    (change_in_diff old new hwo hwn k hb c hc)
+  intro a
+  unfold stepChange
+  simp only [c, hn, Option.map_some]
+  rcases hneed with h | ⟨h, o, ho, hdiff⟩
+  · rw [h]
+    simp only [addCreate, hfile, Bool.false_eq_true, if_false]
+    cases (entryOf old k).map (k, ·) <;> simp
+  · rw [h, ho]
+    simp only [Option.map_some]
+    have hcond : ¬o.hashInfo = n.hashInfo ∨ isDirE o = true := by
+      rcases hdiff with h1 | h1
+      · exact Or.inl h1
+      · right; rw [hfile] at h1; cases hd : isDirE o <;> simp_all
+    simp only [hfile, Bool.and_false, Bool.false_eq_true, if_false, addCreate]
+    simp [hcond]
+
+/-- **everything that has to go is scheduled for deletion** (deletion enabled): an old entry whose key the
+    target does not hold is in `files_delete` / `dirs_delete` — except a directory that is still an implicit
+    directory of the target -/
+theorem compare_schedules_delete (old new : Option Index) (hwo : WFOpt old) (hwn : WFOpt new)
+    (k : Key) (o : Entry) (ho : entryOf old k = some o) (hnone : entryOf new k = none)
+    (hkeep : (isDirE o && newHasNode new k) = false) :
+    if isDirE o then (k, o) ∈ (compare true old new).dirsDelete else (k, o) ∈ (compare true old new).filesDelete := by
+  have hb : HasBelow old k ∨ HasBelow new k := Or.inl (hasBelow_of_entryOf old k o ho)
+  have htyp : diffEntry { cmp := .dirExec } (some o) none = .delete := by
+    simp [diffEntry, decide3, entryDiffOf]
+  let c : Change := { typ := .delete, old := some (k, o), new := none }
+  have hc : c ∈ hereOf { cmp := .dirExec } old new k := by
+    unfold hereOf
+    simp [ho, hnone, htyp, c]
+  have hcd := change_in_diff old new hwo hwn k hb c hc
+  unfold compare
+  by_cases hd : isDirE o = true
+  · simp only [hd, if_true]
+    apply foldl_stepChange_mem true new (·.dirsDelete) (fun a b h q hq => h.2.1 q hq) (k, o) c ?_ _ _ hcd
+    intro a
+    have hnn : newHasNode new k = false := by simpa [hd] using hkeep
+    simp only [stepChange, c, Bool.not_true, Bool.false_eq_true, if_false, hd, Bool.true_and, hnn, addDelete, if_true]
+    simp
+  · have hd' : isDirE o = false := by simpa using hd
+    simp only [hd', Bool.false_eq_true, if_false]
+    apply foldl_stepChange_mem true new (·.filesDelete) (fun a b h q hq => h.1 q hq) (k, o) c ?_ _ _ hcd
+    intro a
+    simp only [stepChange, c, Bool.not_true, Bool.false_eq_true, if_false, hd', Bool.false_and, addDelete]
+    simp
+
 end DvcData.IndexCheckout
